@@ -141,3 +141,36 @@ def bounded(params):
     return {"evaluations": evals, "distinct_nontrivial": nontriv, "failures": failures,
             "rule": "pairs of label arrays over {0,1,2} of shape (4,),(2,2) [thorough: (5,),(2,3),(2,2,2), two dtypes] x {DSC,IOU,RVD} x {no selection, int label, label list, absent label}; non-trivial = both selected sets non-empty",
             "bound": "<= 8 voxels, 3 labels; quick 400 seeded pairs per shape"}
+
+
+def cldice(params):
+    """clDice glue on canned 2-D / 3-D inputs against the statement's formula computed with the same (assumed) skeletons."""
+    from panoptica.metrics import Metric
+    from skimage.morphology import skeletonize, skeletonize_3d
+    bad = []
+    rng = np.random.RandomState(3)
+    cases = []
+    a = np.zeros((9, 9), bool); a[2:7, 1:8] = True
+    b = np.zeros((9, 9), bool); b[3:8, 2:9] = True
+    cases.append((a, b))
+    c = np.zeros((7, 7, 9), bool); c[2:5, 2:5, 1:8] = True
+    d = np.zeros((7, 7, 9), bool); d[2:5, 3:6, 2:9] = True
+    cases += [(c, d), (c, c)]
+    for X, Y in cases:
+        sk = skeletonize if X.ndim == 2 else skeletonize_3d
+        SX, SY = sk(X) > 0, sk(Y) > 0
+        if SX.sum() == 0 or SY.sum() == 0:
+            continue
+        tprec = (Y & SX).sum() / SX.sum()
+        tsens = (X & SY).sum() / SY.sum()
+        if tprec + tsens == 0:
+            continue
+        want = 2 * tprec * tsens / (tprec + tsens)
+        for form in ("bool", "labels"):
+            if form == "bool":
+                got = Metric.clDSC(X, Y)
+            else:
+                got = Metric.clDSC(X.astype(np.uint8) * 3, Y.astype(np.uint8) * 5, 3, 5)
+            if not abs(got - want) <= 1e-9:
+                bad.append(f"clDice {X.ndim}-D ({form}) = {got}, harmonic mean of skeleton coverage = {want}")
+    return {"violated": bool(bad), "problems": bad}
